@@ -1,15 +1,18 @@
 import NaijaVerif.Model.Lex
+import NaijaVerif.Model.LexMem
 import NaijaVerif.Spec.Utf8
 import NaijaVerif.Driver.Util
 
 /-! Family `lex` (see `harness/src/lex.rs` for the protocol):
 ```
-lex <hex src>                 -> toks=<T> diags=<D> labels=<L> end=ok      | bad-utf8
+lex <hex src>                 -> toks=<T> diags=<D> labels=<L> caps=<C> end=ok      | bad-utf8
 relay <hex orig> <hex text>   -> the same answer, for <text>
 ```
 `<T>` is `toksStr`: tokens joined by `,`, each `<kind>@<lo>:<hi>`, with payloads `ident:<hex>`,
 `num:<hex>`, `str:<hex>:<0|1>` (`-` = empty payload, `-` = empty list).  `readToks` reads it back
-(used by the `parse` family, whose requests carry token lists). -/
+(used by the `parse` family, whose requests carry token lists).
+`<C>` is `lexCaps src` (`Model/LexMem.lean`): the capacities of the buffers of the owned string tokens,
+joined by `,` (`-` = none). -/
 
 namespace NaijaVerif.Lex
 open NaijaVerif.Driver
@@ -65,10 +68,13 @@ end NaijaVerif.Lex
 namespace NaijaVerif.Driver.LexD
 open NaijaVerif NaijaVerif.Lex NaijaVerif.Driver
 
+def capsStr (cs : List Nat) : String :=
+  if cs.isEmpty then "-" else ",".intercalate (cs.map toString)
+
 def answer (src : Bytes) : String :=
   if !Utf8.validUtf8 src then "bad-utf8" else
   let (ts, ds) := lex src
-  s!"toks={toksStr ts} diags={diagsStr ds} labels={labelsStr ds} end=ok"
+  s!"toks={toksStr ts} diags={diagsStr ds} labels={labelsStr ds} caps={capsStr (lexCaps src)} end=ok"
 
 def step (_ : Unit) (line : String) : Unit × String :=
   match words line with
